@@ -106,3 +106,31 @@ From Coq Require Import String.
 Theorem x_block_job_arms_ok :
   x_block_job_arms = [("Ok(0)ifoff+done>=harc.metadata.len()", 0); ("Ok(0)", 1); ("Ok(copied)", 2); ("Err(e)", 1)]%string.
 Proof. reflexivity. Qed.
+
+(* ------------------------------------------------------------------ *)
+(* bridge to the protocol model (ConcFault.v)                           *)
+(* ------------------------------------------------------------------ *)
+(* ConcFault's XMain step exits with `false` as soon as an Error update is in the channel and otherwise, once everything
+   has drained, with the driver thread's result; its XDrv step returns `false` iff the walker or a worker / the
+   dispatcher ended in error.  These are exactly the translated functions: *)
+Theorem model_main_step_is_translated_main : forall (errs : nat) (r : bool) stats handle,
+  has_error stats = Nat.ltb 0 errs -> (handle = None <-> r = true) ->
+  (x_main_collect stats handle = None <-> (if Nat.ltb 0 errs then false else r) = true).
+Proof.
+  intros errs r stats handle He Hh. rewrite x_main_collect_ok_iff, He.
+  destruct (Nat.ltb 0 errs); [split; [intros [H _]; discriminate|discriminate]|].
+  split; [intros [_ H]; now apply Hh|intros H; split; [reflexivity|now apply Hh]].
+Qed.
+
+Theorem model_driver_step_is_translated_copy : forall (walk_ok : bool) (workers_ok : list bool) walk workers,
+  (walk = None <-> walk_ok = true) -> Forall2 (fun r b => r = None <-> b = true) workers workers_ok ->
+  (x_parfile_copy_result walk workers = None <-> walk_ok && forallb (fun b => b) workers_ok = true).
+Proof.
+  intros walk_ok workers_ok walk workers Hw Hf. rewrite x_parfile_copy_ok_iff, Bool.andb_true_iff, forallb_forall.
+  split; intros [H1 H2]; split; try (now apply Hw).
+  - intros b Hb. induction Hf as [|r b' rs bs Hrb Hf IH]; [destruct Hb|].
+    inversion H2 as [|? ? Hr Hrs]; subst. destruct Hb as [<-|Hb]; [now apply Hrb|now apply IH].
+  - induction Hf as [|r b' rs bs Hrb Hf IH]; constructor.
+    + apply Hrb. apply H2. now left.
+    + apply IH. intros b Hb. apply H2. now right.
+Qed.
